@@ -682,6 +682,12 @@ constexpr bool will_conversion_truncate(Quantity<U, R> q, TargetUnitSlot target_
         return true;
     }
 
+    // If scaling overflows the common type, there is no converted value to examine (and computing it
+    // anyway would be undefined behaviour for a signed type).  This is the overflow checker's case.
+    if (will_conversion_overflow(to_common, target_unit)) {
+        return false;
+    }
+
     const auto converted_but_not_narrowed = to_common.coerce_in(target_unit);
     return detail::will_static_cast_truncate<TargetRep>(converted_but_not_narrowed);
 }
